@@ -164,3 +164,94 @@ pub fn run_gate_sched(case: &Value) -> Value {
     out["base"] = json!(keys[0].0);
     out
 }
+
+
+// ---------------------------------------------------------------------------------------------------------------------
+/// op "gate_big": registers beyond the sizes whose model evaluation inside Coq is affordable (12..16 qubits). The crate's result is
+/// compared HERE with a direct embedding of the gate's defining matrix (independent loops written from the definition: qubit k is
+/// bit k of the index, the gate acts where every control bit is 1), on a pseudo-random un-normalised vector derived from "seed".
+fn mat2_of(kind: &str, p: &[f64]) -> Option<[[Complex<f64>; 2]; 2]> {
+    let c = |re: f64, im: f64| Complex::new(re, im);
+    let (o, z, i) = (c(1.0, 0.0), c(0.0, 0.0), c(0.0, 1.0));
+    let h = 1.0 / 2.0f64.sqrt();
+    Some(match kind {
+        "H" => [[c(h, 0.0), c(h, 0.0)], [c(h, 0.0), c(-h, 0.0)]],
+        "X" | "CNOT" | "Toffoli" => [[z, o], [o, z]],
+        "Y" => [[z, -i], [i, z]],
+        "Z" => [[o, z], [z, -o]],
+        "I" => [[o, z], [z, o]],
+        "S" => [[o, z], [z, i]],
+        "Sdag" => [[o, z], [z, -i]],
+        "T" => [[o, z], [z, c(h, h)]],
+        "Tdag" => [[o, z], [z, c(h, -h)]],
+        "P" => [[o, z], [z, c(p[0].cos(), p[0].sin())]],
+        "RX" => { let (cc, ss) = ((p[0] / 2.0).cos(), (p[0] / 2.0).sin()); [[c(cc, 0.0), c(0.0, -ss)], [c(0.0, -ss), c(cc, 0.0)]] }
+        "RY" => { let (cc, ss) = ((p[0] / 2.0).cos(), (p[0] / 2.0).sin()); [[c(cc, 0.0), c(-ss, 0.0)], [c(ss, 0.0), c(cc, 0.0)]] }
+        "RZ" => { let (cc, ss) = ((p[0] / 2.0).cos(), (p[0] / 2.0).sin()); [[c(cc, -ss), z], [z, c(cc, ss)]] }
+        "U2" => [[c(p[0], p[1]), c(p[2], p[3])], [c(p[4], p[5]), c(p[6], p[7])]],
+        "RYP" => { let (cc, ss) = ((p[0] / 2.0).cos(), (p[0] / 2.0).sin()); let e = c(p[1].cos(), p[1].sin()); [[c(cc, 0.0), -e * ss], [c(ss, 0.0), e * cc]] }
+        "RYPdag" => { let (cc, ss) = ((p[0] / 2.0).cos(), (p[0] / 2.0).sin()); let e = c(p[1].cos(), -p[1].sin()); [[c(cc, 0.0), c(ss, 0.0)], [-e * ss, e * cc]] }
+        _ => return None,
+    })
+}
+fn reference(kind: &str, p: &[f64], ts: &[usize], cs: &[usize], v: &[Complex<f64>]) -> Vec<Complex<f64>> {
+    let mut out = v.to_vec();
+    let cmask: usize = cs.iter().fold(0usize, |m, &c| m | (1usize << c));
+    match kind {
+        "SWAP" => {
+            let (a, b) = (ts[0], ts[1]);
+            for i in 0..v.len() { if i & cmask == cmask && ((i >> a) & 1) != ((i >> b) & 1) { out[i] = v[i ^ (1 << a) ^ (1 << b)]; } }
+        }
+        "Match" => {
+            let (lo, hi) = (ts[0], ts[0] + 1);
+            let (cc, ss) = ((p[0] / 2.0).cos(), (p[0] / 2.0).sin());
+            let e1 = Complex::new(p[1].cos(), p[1].sin()); let e2 = Complex::new(p[2].cos(), p[2].sin());
+            for i in 0..v.len() {
+                if i & cmask != cmask || (i >> lo) & 1 != 0 || (i >> hi) & 1 != 0 { continue; }
+                let (i01, i10, i11) = (i | (1 << lo), i | (1 << hi), i | (1 << lo) | (1 << hi));
+                out[i01] = v[i01] * cc - e1 * ss * v[i10];
+                out[i10] = v[i01] * ss + e1 * cc * v[i10];
+                out[i11] = e2 * v[i11];
+            }
+        }
+        _ => {
+            let m = mat2_of(kind, p).unwrap();
+            let t = ts[0];
+            for i in 0..v.len() {
+                if i & cmask != cmask || (i >> t) & 1 != 0 { continue; }
+                let j = i | (1 << t);
+                out[i] = m[0][0] * v[i] + m[0][1] * v[j];
+                out[j] = m[1][0] * v[i] + m[1][1] * v[j];
+            }
+        }
+    }
+    out
+}
+pub fn run_gate_big(case: &Value) -> Value {
+    let kind = case["kind"].as_str().unwrap();
+    let params = vfs(&case["params"]);
+    let n = vu(&case["n"]);
+    let (ts, cs) = (vus(&case["ts"]), vus(&case["cs"]));
+    let mut x: u64 = case["seed"].as_u64().unwrap_or(1).wrapping_mul(6364136223846793005).wrapping_add(1442695040888963407);
+    let mut next = || { x = x.wrapping_mul(6364136223846793005).wrapping_add(1442695040888963407); ((x >> 11) as f64 / (1u64 << 53) as f64) * 2.0 - 1.0 };
+    let v: Vec<Complex<f64>> = (0..(1usize << n)).map(|_| Complex::new(next(), next())).collect();
+    let st = State { state_vector: v.clone(), num_qubits: n };
+    quant_iron::verif_hooks::PARALLEL_THRESHOLD.set(10);
+    let (op, _) = match make_op(kind, &params) { Ok(x) => x, Err(e) => return json!({"r": "ctor_err", "e": e}) };
+    let pool_n = case.get("pool").map(vu);
+    let r = std::panic::catch_unwind(std::panic::AssertUnwindSafe(|| match pool_n {
+        Some(p) => rayon::ThreadPoolBuilder::new().num_threads(p).build().unwrap().install(|| op.apply(&st, &ts, &cs)),
+        None => op.apply(&st, &ts, &cs),
+    }));
+    match r {
+        Ok(Ok(s)) => {
+            let want = reference(kind, &params, &ts, &cs, &v);
+            let mut maxd = 0.0f64; let mut at = 0usize;
+            for (i, (a, b)) in s.state_vector.iter().zip(want.iter()).enumerate() { let d = (a - b).norm(); if d > maxd || d.is_nan() { maxd = d; at = i; } }
+            json!({"r": "ok", "nq": s.num_qubits, "len": s.state_vector.len(), "maxdiff": maxd, "at": at,
+                   "impl_at": [s.state_vector[at].re, s.state_vector[at].im], "want_at": [want[at].re, want[at].im]})
+        }
+        Ok(Err(e)) => json!({"r": "err", "e": format!("{:?}", e)}),
+        Err(p) => panic_json(p),
+    }
+}
